@@ -111,6 +111,49 @@ def compare(base, out, nodes, unaffected, keys, res, what, o, stats):
     return changed
 
 
+REFORM_FIRST = r"""
+import sys, json, functools, random, warnings
+warnings.filterwarnings("ignore")
+import impl, popgen
+impl.setup()
+from _gettsim.interface import compute_taxes_and_transfers
+spec = json.loads(sys.stdin.read())
+o = spec["ordinal"]
+params, funcs = impl.env(o)
+df = popgen.to_frame(popgen.population(random.Random(spec["seed"]), spec["year"], spec["n_hh"], id_style="sparse"))
+out = {}
+for n in spec["nodes"]:
+    f = funcs[n]
+    @functools.wraps(f)          # the usual way to write "original + 1": name, annotations AND the metadata dict are taken over (shared)
+    def repl(*a, _f=f, **k):
+        r = _f(*a, **k)
+        return (not r) if isinstance(r, bool) else r + 98765.4321          # (large: statutory rounding of the node must not absorb it)
+    try:
+        a = compute_taxes_and_transfers(data=df, params=params, functions=[funcs, {n: repl}], targets=spec["targets"][n])
+        b = compute_taxes_and_transfers(data=df, params=params, functions=funcs, targets=spec["targets"][n])
+        out[n] = dict(reform={c: [float(v) for v in a[c]] for c in a.columns}, baseline_after={c: [float(v) for v in b[c]] for c in b.columns})
+    except Exception as ex:
+        out[n] = dict(error=type(ex).__name__ + ": " + str(ex)[:200])
+print("RF" + json.dumps(out))
+"""
+
+
+def reform_first(o, year, seed, n_hh, nodes, targets):
+    """in a FRESH process: the reform (a functools.wraps replacement sharing the original's metadata) is simulated BEFORE the baseline"""
+    import subprocess
+
+    import common as C
+
+    env = dict(C.ENV)
+    env["PYTHONPATH"] = str(C.VERIF / "tools") + ":" + env["PYTHONPATH"]
+    p = subprocess.run([C.PY, "-c", REFORM_FIRST], env=env, input=json.dumps(dict(ordinal=o, year=year, seed=seed, n_hh=n_hh, nodes=nodes, targets=targets)),
+                       capture_output=True, text=True, timeout=900)
+    for line in p.stdout.splitlines():
+        if line.startswith("RF"):
+            return json.loads(line[2:])
+    raise RuntimeError("reform_first failed: " + (p.stderr or p.stdout)[-800:])
+
+
 def run(ctx, res):
     impl.setup()
     res.obligations += coqrun.prove("C06", PRELUDE + "Open Scope Z_scope.\n", obligations(), shards=1, timeout=1500)
@@ -195,19 +238,50 @@ def run(ctx, res):
                 repl = make_replacement(funcs[n], 1)
                 if hasattr(funcs[n], "__info__"):
                     repl.__info__ = dict(funcs[n].__info__)
-                else:
-                    repl.__name__ = n
+                repl.__name__ = n          # a function given in the list is registered under its __name__
                 out, _ = engine.simulate(df, o, targets=nodes, functions=[fshared, repl])
             except Exception as ex:  # noqa: BLE001
                 stats["skipped"][f"{impl.iso(o)}:list:{n}"] = f"replacement run raises {type(ex).__name__}"
                 continue
             stats["function_reforms"] += 1
             stats["list_form_reforms"] = stats.get("list_form_reforms", 0) + 1
-            compare(base, out, nodes, set(nodes) - metam.descendants(d, {n}), keys, res, f"function-list[{n}]", o, stats)
+            ch = compare(base, out, nodes, set(nodes) - metam.descendants(d, {n}), keys, res, f"function-list[{n}]", o, stats)
+            stats["list_form_with_visible_effect"] = stats.get("list_form_with_visible_effect", 0) + (1 if ch else 0)
             if {k: id(v) for k, v in fshared.items()} != snap:
                 res.add_violation("caller:functions-modified", f"compute_taxes_and_transfers(functions=[policy_functions, replacement of {n}]) modified the caller's "
                                   f"function collection ({impl.iso(o)})", dict(kind="functions-modified", date=impl.iso(o), node=n), True)
                 break
+        # (vi) order of evaluation: in a fresh process a reform written with functools.wraps (metadata shared with the original) is simulated
+        #      FIRST, the baseline afterwards: the baseline must equal the baseline of this process, the reform must differ in its node
+        import random as _random
+
+        seed6 = rnd.randrange(10**6)
+        df6 = popgen.to_frame(popgen.population(_random.Random(seed6), year, 6, id_style="sparse"))
+        cand = [n for n in rule_nodes if hasattr(funcs[n], "__info__")]
+        pick6 = rnd.sample(cand, min(len(cand), 3 if ctx.tier == "quick" else 12))
+        tg6 = {n: [n] + sorted(metam.descendants(d, {n}) & set(d["targets"]))[:2] for n in pick6}
+        try:
+            base6, _ = engine.simulate(df6, o, targets=sorted({t for v in tg6.values() for t in v}))
+            rf = reform_first(o, year, seed6, 6, pick6, tg6)
+        except Exception as ex:  # noqa: BLE001
+            res.machinery_errors.append(f"reform_first {impl.iso(o)}: {type(ex).__name__}: {str(ex)[:300]}")
+            rf = {}
+        for n, r in rf.items():
+            if "error" in r:
+                stats["skipped"][f"{impl.iso(o)}:reform-first:{n}"] = r["error"][:100]
+                continue
+            stats["reform_first_runs"] = stats.get("reform_first_runs", 0) + 1
+            for c, vals in r["baseline_after"].items():
+                want = [float(v) for v in base6[c]]
+                if len(vals) != len(want) or any(abs(a - b) > 1e-9 * max(1.0, abs(b)) for a, b in zip(vals, want)):
+                    res.add_violation(f"reform-first:{n}", f"on {impl.iso(o)}, after a reform replacing {n} (functools.wraps of the original, + 98765.4321) was simulated first in a fresh "
+                                      f"process, the BASELINE column {c} differs from the baseline computed without a preceding reform: {vals[:6]} vs {want[:6]}",
+                                      dict(kind="reform-first", date=impl.iso(o), node=n, column=c, baseline_after_reform=vals[:20], baseline=want[:20], seed=seed6), True)
+                    break
+            else:
+                if r["reform"].get(n) == r["baseline_after"].get(n):
+                    res.add_violation(f"reform-ignored:{n}", f"on {impl.iso(o)} replacing {n} by a user function (functools.wraps of the original, + 98765.4321) has no effect on {n} itself",
+                                      dict(kind="reform-ignored", date=impl.iso(o), node=n, values=r["reform"].get(n, [])[:20], seed=seed6), True)
         # (v) in-place reform of a freshly set-up environment (nested values), then a NEW environment: the new one is pristine
         from _gettsim.policy_environment import set_up_policy_environment
         import modelio as M
@@ -233,7 +307,7 @@ def run(ctx, res):
                 "bit-identical; (ii) per parameter group (quick: 8 sampled, thorough: all) every finite float leaf is changed (x*1.07+0.5) and "
                 "every column outside descendants(users(group)) — computed on the regenerated graph — must be bit-identical; (iii) per sampled "
                 "rule (thorough: all) the function is replaced by a user function returning original+1 / negation, same check with "
-                "descendants(rule), also in the list form functions=[policy_functions, replacement] with the collection reused; (v) an in-place reform of nested values in one freshly set-up environment leaves a newly set-up environment pristine. Also: no mutable object is shared between parameter groups. distinct = distinct (date, reform).")
+                "(vi) in a fresh process a reform written with functools.wraps (metadata shared with the original) is simulated BEFORE the baseline: the baseline must be unchanged and the reform visible in its node. descendants(rule), also in the list form functions=[policy_functions, replacement] with the collection reused; (v) an in-place reform of nested values in one freshly set-up environment leaves a newly set-up environment pristine. Also: no mutable object is shared between parameter groups. distinct = distinct (date, reform).")
 
 
 def replay(payload):
